@@ -118,6 +118,7 @@ type agg struct {
 	Counters                                    map[string]int64
 	Violations                                  []Violation
 	Samples                                     []interface{}
+	perClass                                    map[string]int
 }
 
 func newAgg() *agg {
@@ -165,8 +166,14 @@ func (a *agg) merge(c *chunkOut) {
 	for k, v := range c.Counters {
 		a.Counters[k] += v
 	}
-	if len(a.Violations) < 2000 {
-		a.Violations = append(a.Violations, c.Violations...)
+	for _, v := range c.Violations {
+		if a.perClass == nil {
+			a.perClass = map[string]int{}
+		}
+		a.perClass[v.Class]++
+		if a.perClass[v.Class] <= 40 && len(a.Violations) < 20000 {
+			a.Violations = append(a.Violations, v)
+		}
 	}
 	for _, s := range c.Samples {
 		if len(a.Samples) < 6 {
@@ -448,8 +455,22 @@ func (co *chunkOut) add(r *Result, keys map[uint64]struct{}, sample bool) {
 	for cn, v := range r.Counters {
 		co.Counters[cn] += v
 	}
-	if len(co.Violations) < 50 {
-		co.Violations = append(co.Violations, r.Violations...)
+	// keep a few violations of every class (a flood of one class must not hide others)
+	for _, v := range r.Violations {
+		n := 0
+		for _, x := range co.Violations {
+			if x.Class == v.Class {
+				n++
+			}
+		}
+		if n < 3 && len(co.Violations) < 300 {
+			co.Violations = append(co.Violations, v)
+		} else {
+			if co.Counters == nil {
+				co.Counters = map[string]int64{}
+			}
+			co.Counters["violations_not_listed"]++
+		}
 	}
 	if r.Sample != nil && len(co.Samples) < 2 && sample {
 		co.Samples = append(co.Samples, r.Sample)
@@ -811,7 +832,7 @@ func parent(c *Check, tier string) int {
 			fmt.Printf("UNCONFIRMED (did not reproduce on replay, not reported): %s idx=%d %s\n", cl, v.Idx, firstLine(v.Msg))
 			continue
 		}
-		nviol += len(vs)
+		nviol += a.perClass[cl]
 		sum := sha256.Sum256([]byte(c.ID + cl + tier))
 		path := filepath.Join(root(), "replays", fmt.Sprintf("%s-%s.json", c.ID, hex.EncodeToString(sum[:6])))
 		rp := map[string]interface{}{"property": c.ID, "tier": tier, "idx": v.Idx, "class": cl, "msg": v.Msg, "case": v.Case, "occurrences": len(vs),
@@ -856,7 +877,7 @@ func parent(c *Check, tier string) int {
 		}
 		sort.Slice(l, func(i, j int) bool { return l[i].v > l[j].v || (l[i].v == l[j].v && l[i].k < l[j].k) })
 		for i, e := range l {
-			if i >= 40 {
+			if i >= 120 {
 				break
 			}
 			outs[e.k] = e.v
